@@ -587,6 +587,17 @@ def skeleton_signature(cid, exp, obs):
     return key, "%s: %s" % (head, kind)
 
 
+HOIST_GROUPS = {
+    "function": "function declarations are not created on entry to their scope (call/typeof before the declaration, "
+                "precedence against var and parameters)",
+    "local": "function declarations are not created on entry to their scope (call/typeof before the declaration, "
+             "precedence against var and parameters)",
+    "param": "var/function declarations against a parameter of the same name: wrong binding value",
+    "var": "var declarations are not created on entry (read before declaration throws; `var x;` resets the value)",
+    "boundary": "break/continue/return inside a nested function use the try/label contexts of the enclosing function",
+}
+
+
 def signature(sp, cid, payload, exp, obs):
     if cid.startswith("d2|") or cid.startswith("d3|"):
         return skeleton_signature(cid, exp, obs)
@@ -608,8 +619,11 @@ def signature(sp, cid, payload, exp, obs):
     elif parts[0] == "cl":
         head = "closure over %s (%s closures)" % (parts[1], {"fe": "function-expression", "arrow": "arrow",
                                                            "decl": "function-declaration"}[parts[5]])
+    elif parts[1] == "hoist":
+        head = HOIST_GROUPS.get(parts[2], "hoisting: " + parts[2])
+        return "hoist|" + head, head
     else:
-        head = "%s %s" % (parts[1], "/".join(parts[2:3]) if parts[1] == "completion" else "/".join(parts[2:]))
+        head = "completion value of a %s statement" % parts[2]
     return "%s|%s" % (head, kind), "%s: %s" % (head, kind)
 
 
